@@ -116,9 +116,16 @@ def records(ck, rnd, circuits, ms, per_circuit_opts=None):
             for reuse, strip in opts:
                 for use_cb in ((False, True) if m == 2 else (False,)):
                     cyc = (1, 2, 3, 4) if (m == 2 and any(x for x in st['seq']) and rnd.random() < 0.6) else ()
-                    rec = lsim.record(c, st, m, lanes, stim, reuse, strip, use_cb, rnd, cycles=cyc)
+                    wide = None
+                    if ci > 13 and ci % 9 == 0:
+                        # scale: batches beyond 8- and 16-bit lane counts; the recorded lanes sit at and around the boundaries
+                        n = rnd.choice([257, 300, 65537, 70001])
+                        pos = sorted(set([0, 255, 256, n - 1] + [x for x in (65535, 65536) if x < n] + [rnd.randrange(n) for _ in range(lanes)]))[:lanes] if lanes >= 4 else None
+                        if pos is not None and len(pos) == lanes:
+                            wide = [n, pos]
+                    rec = lsim.record(c, st, m, lanes, stim, reuse, strip, use_cb, rnd, cycles=cyc, wide=wide)
                     recs.append(rec)
-                    meta.append(dict(circuit=gen.circuit_state(c), m=m, lanes=lanes, stim=stim, reuse=reuse, strip=strip, cb=use_cb, cyc=list(cyc)))
+                    meta.append(dict(circuit=gen.circuit_state(c), m=m, lanes=lanes, stim=stim, reuse=reuse, strip=strip, cb=use_cb, cyc=list(cyc), wide=wide))
     return recs, meta
 
 
@@ -176,7 +183,7 @@ def replay_case(ck, case, pids):
     mt = case['input']
     c = gen.circuit_from_state(mt['circuit'])
     st = lsim.struct(c)
-    rec = lsim.record(c, st, mt['m'], mt['lanes'], mt['stim'], mt['reuse'], mt['strip'], mt['cb'], random.Random(ck.seed), cycles=mt.get('cyc', ()))
+    rec = lsim.record(c, st, mt['m'], mt['lanes'], mt['stim'], mt['reuse'], mt['strip'], mt['cb'], random.Random(ck.seed), cycles=mt.get('cyc', ()), wide=mt.get('wide'))
     judge(ck, [rec], [mt], pids)
 
 
@@ -214,7 +221,8 @@ def main(tier=None, replay=None):
     ck.count('records-strip', sum(1 for m in meta if m['strip']))
     ck.count('records-with-cycles', sum(1 for m in meta if m['cyc']))
     ck.count('records-odd-batch', sum(1 for m in meta if m['lanes'] % 8))
-    ck.need_cover(['records-callback-path', 'records-reuse', 'records-strip', 'records-with-cycles', 'records-odd-batch'])
+    ck.count('records-wide-batch', sum(1 for m in meta if m.get('wide')))
+    ck.need_cover(['records-callback-path', 'records-reuse', 'records-strip', 'records-with-cycles', 'records-odd-batch', 'records-wide-batch'])
     ck.sample(dict(circuit=[repr(n) for n in circuits[20].nodes][:12], lanes=meta[-1]['lanes'], stim_row0=meta[-1]['stim'][0]))
     ck.assumptions += ['interface-cut convention: every port/state element drives its outputs from the assigned value (DESIGN §5.2)',
                        'gates drive output pin 0 only; state elements have pin 0 connected or no input at all',
